@@ -402,6 +402,9 @@ func checkC09(c *core.Ctx) {
 		if used && kind != "unnamed-chord" {
 			sym = "Zbroken"
 		}
+		if used && strings.HasPrefix(kind, "shadowed") {
+			sym = "zbrokenold" // the entry that is reachable through its display symbol only
+		}
 		doc := []byte("- chord: {degree: \"1\", name: \"" + sym + "\"}\n  values: [1]\n")
 		for _, cmd := range [][]string{{"write"}, {"write", "event"}, {"write", "conv", "-c", "cmt"}, {"info", "chord", "describe", "-t", "C_" + sym}, {"info", "chord", "list"}, {"info", "attr", "list"}, {"info", "attr", "describe", "-t", "Perfect5"}} {
 			res := c.Crd.Run(runner.Opt{Stdin: doc}, append(append([]string{}, cmd...), args...)...)
@@ -654,6 +657,18 @@ func nonsenseCatalogue(c *core.Ctx) {
 			cases = append(cases, ncase{it.name, "command", "", a})
 		}
 	}
+	// the same nonsense at the end of a long piece: by then far more than any output buffer has been converted
+	for _, it := range items {
+		if it.name == "empty piece" {
+			continue
+		}
+		for k, t := range it.text {
+			if k >= 2 {
+				break
+			}
+			cases = append(cases, ncase{it.name, "longtext", t, nil})
+		}
+	}
 	// two kinds of nonsense at once: every bad command line on every empty document. (`write parse` and
 	// `write conv` do not have to refuse an empty document by themselves, and a flag that overrides the
 	// first instance has nothing to be applied to there - so only command lines that are wrong on their
@@ -702,6 +717,30 @@ func nonsenseCatalogue(c *core.Ctx) {
 				refusedSomewhere++
 			}
 			c.Nontrivial(fmt.Sprintf("%s|text|%s", nc.item, nc.payload))
+		case "longtext":
+			unit := "C[1]{lic=la la la la la la la la}\n"
+			if ru := strings.TrimLeft(nc.payload, " "); ru != "" && ru[0] >= '0' && ru[0] <= '9' {
+				unit = "1[1]{lic=la la la la la la la la}\n"
+			}
+			text := strings.Repeat(unit, 1500+r.Intn(2500)) + nc.payload
+			for _, cv := range [][]string{{"text", "conv", "degree"}, {"text", "conv", "syllable"}} {
+				r1 := c.Crd.Run(runner.Opt{Stdin: []byte(text)}, cv...)
+				if !judgeOutcome(c, "nonsense", i, strings.Join(cv, " ")+" (long piece)", r1, det) {
+					return
+				}
+				if !r1.OK() {
+					continue
+				}
+				r2 := c.Crd.Run(runner.Opt{Stdin: r1.Stdout}, "write")
+				if !judgeOutcome(c, "nonsense", i, "write (long piece)", r2, det) {
+					return
+				}
+				if r2.OK() || isSMF(r2.Stdout) {
+					fail("reaches-midi", fmt.Sprintf("`crd %s | crd write` ends in a MIDI file", strings.Join(cv, " ")), r2)
+					return
+				}
+			}
+			c.Nontrivial(fmt.Sprintf("%s|longtext|%s", nc.item, nc.payload))
 		case "yaml":
 			args := append([]string{}, nc.argv...)
 			var outPath string
